@@ -228,7 +228,7 @@ def run(ctx):
     ctx.assume(ASSUME_RUSTC)
     ctx.assume(ASSUME_PATHS)
     public = prog.public_fns()
-    ctx.floor("R-C20-4", "public_functions", len(public), 105)
+    ctx.floor("R-C20-4", "public_functions", len(public), 80)
     all_sites = []
     for p in sorted(prog.bodies):
         b = prog.bodies[p]
@@ -243,9 +243,9 @@ def run(ctx):
     ctx.counters["index_sites"] = sum(1 for x in all_sites if x[2].kind == "index")
     ctx.counters["arith_asserts"] = sum(1 for x in all_sites if x[2].kind == "arith")
     ctx.counters["explicit_panics"] = sum(1 for x in all_sites if x[2].kind == "explicit")
-    ctx.floor("R-C20-4", "unwrap_sites", ctx.counters["unwrap_sites"], 100)
-    ctx.floor("R-C20-4", "index_sites", ctx.counters["index_sites"], 100)
-    ctx.floor("R-C20-3", "arith_asserts", ctx.counters["arith_asserts"], 25)
+    ctx.floor("R-C20-4", "unwrap_sites", ctx.counters["unwrap_sites"], 50)
+    ctx.floor("R-C20-4", "index_sites", ctx.counters["index_sites"], 50)
+    ctx.floor("R-C20-3", "arith_asserts", ctx.counters["arith_asserts"], 12)
 
     handled = set()
     rule1(ctx, prog, flows, guards, kinds, all_sites, review, handled)
@@ -392,7 +392,7 @@ def rule1(ctx, prog, flows, guards, kinds, all_sites, review, handled):
             % (s.what, b.short, callee_s, " or ".join("specs.%s == %s" % (f, str(v).lower()) for f, v in und)),
             s.site(),
         )
-    ctx.floor("R-C20-1", "kind_restricted_unwraps", n, 8)
+    ctx.floor("R-C20-1", "kind_restricted_unwraps", n, 4)
 
 
 # ---------------------------------------------------------------------------------------- R-C20-2
@@ -427,8 +427,34 @@ def sanitized_here(fl, site_bb, desc):
     collect(desc)
     if not roots:
         return None
+    # variables bound from a root (`if let Some(n) = root.clone()`, `let n = root.unwrap()`, ...) stand for
+    # the same name: a named, name-typed local whose value derives (data only) from a root joins the roots
+    root_locals = {l for r in roots for l in b.locals_named(r)} | {i for i in range(1, b.arg_count + 1) if b.local_name(i) in roots}
+    if root_locals:
+        for l in b.locals:
+            nm_ = l["name"]
+            if not nm_ or nm_ in roots or l["i"] <= b.arg_count or not name_typed(l["ty"]):
+                continue
+            sl_ = fl.slice_local({("L", l["i"])}, data_only=True)
+            if any(n[0] == "L" and n[1] in root_locals for n in sl_):
+                roots.add(nm_)
     good_edges = []
     why = []
+    # `if let Some(n) = root` / `match root { None => .., Some(n) => .. }`: on the None edge there is no name
+    for (bb, test, targets, otherwise) in panic.discr_atoms(fl):
+        if not str(test[2]).lstrip("&").startswith("std::option::Option<"):
+            continue
+        sl_ = fl.slice_local(fl._op_reads(b.blocks[bb].term.discr), data_only=True)
+        if not any(n[0] == "L" and n[1] in root_locals for n in sl_):
+            continue
+        if any(n[0] == "CALL" and b.blocks[n[1]].term.callee and b.blocks[n[1]].term.callee.short.split("::")[-1] in ("get_node", "get_node_index", "get") for n in sl_):
+            continue
+        none_succ = targets.get(0)
+        if none_succ is None and 1 in targets:
+            none_succ = otherwise
+        if none_succ is not None:
+            good_edges.append((bb, none_succ))
+            why.append("None edge at %s" % loc_str(b.blocks[bb].term.span))
     for (bb, test, t_succ, f_succ) in bool_atoms(fl):
         if not (isinstance(test, tuple) and test[0] == "call"):
             continue
@@ -522,7 +548,7 @@ def is_existence_check_fn(prog, flows, path, param):
 def param_sources(flows, body, fl, operand):
     """parameters of `body` (indices) the operand's value derives from (data), and whether it also
     derives from the graph's own stores"""
-    sl = flows.slice(body.path, fl._op_reads(operand), up=False, down="clos", data_only=True)
+    sl = flows.slice(body.path, fl._op_reads(operand), up=False, down="clos", data_only=True, skip_selectors=True)
     params = set()
     for (bp, n) in sl:
         if bp == body.path and n[0] in ("L", "SRC") and isinstance(n[1], int) and 1 <= n[1] <= body.arg_count:
@@ -563,11 +589,11 @@ def trace_name_taint(prog, flows, body, bb, operand, depth=0, seen=None):
                 for (pp, s) in flows.closure_sites(body.path):
                     pb = prog.bodies[pp]
                     pf = flows.of(pb)
-                    cl = s.lhs.local
+                    cl = pf.copies_of(s.lhs.local)
                     for t in pb.calls():
-                        if any(a.place is not None and a.place.local == cl for a in t.args):
+                        if any(a.place is not None and a.place.local in cl for a in t.args):
                             for a in t.args:
-                                if a.place is not None and a.place.local != cl and name_typed(a.place.ty):
+                                if a.place is not None and a.place.local not in cl and name_typed(a.place.ty):
                                     out += trace_name_taint(prog, flows, pb, t.bb, a, depth + 1, seen)
             continue
         pname = body.local_name(p) or ("arg%d" % p)
@@ -583,19 +609,7 @@ def trace_name_taint(prog, flows, body, bb, operand, depth=0, seen=None):
 
 
 def _reach_without_edges(body, edges):
-    edges = set(edges)
-    seen = set()
-    st = [0]
-    while st:
-        x = st.pop()
-        if x in seen:
-            continue
-        seen.add(x)
-        for y in body.succ(x):
-            if (x, y) in edges:
-                continue
-            st.append(y)
-    return seen
+    return body.reach_avoiding_edges(edges)
 
 
 def has_error_channel(body):
@@ -658,7 +672,7 @@ def rule2(ctx, prog, flows, kinds, all_sites, review, handled):
             )
         elif not without:
             ctx.ok("R-C20-2", key, "no unchecked public source", s.site())
-    ctx.floor("R-C20-2", "name_lookup_unwraps", n, 15)
+    ctx.floor("R-C20-2", "name_lookup_unwraps", n, 8)
 
 
 # ---------------------------------------------------------------------------------------- R-C20-3
@@ -714,6 +728,114 @@ def is_len_like(d):
     return isinstance(d, tuple) and d[0] == "call" and d[1].split("::")[-1] in ("len", "count", "number_of_nodes", "number_of_edges")
 
 
+KEYMAP = []  # (legacy key, key) per arithmetic site; used by the one-off key migration only
+COUNT_CALLS = ("len", "count", "number_of_nodes", "number_of_edges")
+
+
+def count_like(b, op, seen=None, depth=0):
+    """the operand is a count of items that exist in memory: a constant, a len()/count(), a copy or
+    widening cast of one, a min/max/saturating_sub of one, a sum of such (through the checked-add
+    tuple), or such a value returned by a crate function (also as a tuple component); loop
+    accumulators are accepted co-inductively.  Parameters and struct fields are not count-like."""
+    if seen is None:
+        seen = set()
+    if op.is_const():
+        c = op.const_int()
+        return c is not None and c >= 0
+    p = op.place
+    if p is None or depth > 14:
+        return False
+    if p.proj:
+        if len(p.proj) == 1 and isinstance(p.proj[0], dict) and str(p.proj[0].get("f", "")).isdigit() and not (1 <= p.local <= b.arg_count):
+            k = int(p.proj[0]["f"])
+            defs = b.assigns_to(p.local)
+            if len(defs) == 1:
+                d = defs[0][1]
+                rv = getattr(d, "rv", None)
+                # `.0` of the (value, overflowed) tuple of a checked addition
+                if rv is not None and rv.k == "binop" and rv.j["op"] == "AddWithOverflow" and k == 0:
+                    return all(count_like(b, o, seen, depth + 1) for o in rv.ops)
+                # a component of a tuple built here
+                if rv is not None and rv.k == "aggr" and rv.j.get("ak") == "tuple" and k < len(rv.ops):
+                    return count_like(b, rv.ops[k], seen, depth + 1)
+                # a component of the tuple a crate function returns
+                if getattr(d, "k", None) == "call" and d.callee:
+                    return _returns_count(b.prog, d.callee.target_path(b.prog), k, seen, depth + 1)
+        return False
+    l = p.local
+    if 1 <= l <= b.arg_count:
+        return False
+    if (b.path, l) in seen:
+        return True
+    seen = seen | {(b.path, l)}
+    defs = b.assigns_to(l)
+    if not defs:
+        return False
+    for (bb, d) in defs:
+        if getattr(d, "k", None) == "call":
+            nm = d.callee.short.split("::")[-1] if d.callee else ""
+            if nm in COUNT_CALLS:
+                continue
+            if nm in ("min", "max") and all(count_like(b, a, seen, depth + 1) for a in d.args):
+                continue
+            if nm == "saturating_sub" and d.args and count_like(b, d.args[0], seen, depth + 1):
+                continue
+            if d.callee and d.callee.target_path(b.prog) and _returns_count(b.prog, d.callee.target_path(b.prog), None, seen, depth + 1):
+                continue
+            return False
+        rv = d.rv
+        if d.lhs.proj:
+            return False
+        if rv.k == "use" and count_like(b, rv.ops[0], seen, depth + 1):
+            continue
+        if rv.k == "cast" and rv.j.get("ck", "").startswith("IntToInt") and rv.j.get("to") in ("usize", "u64") and count_like(b, rv.ops[0], seen, depth + 1):
+            continue
+        if rv.k == "binop" and rv.j["op"] in ("Add", "AddUnchecked") and all(count_like(b, o, seen, depth + 1) for o in rv.ops):
+            continue
+        return False
+    return True
+
+
+def _returns_count(prog, path, component, seen, depth):
+    """every value the crate function returns (or the given component of the tuple it returns) is count-like"""
+    if not path or path not in prog.bodies or depth > 14:
+        return False
+    cb = prog.bodies[path]
+    from mir import Operand
+
+    ret = Operand({"k": "copy", "place": {"l": 0, "p": [] if component is None else [{"f": str(component), "i": component, "ty": "usize", "of": ""}], "ty": "usize"}})
+    if component is None:
+        return count_like(cb, ret, seen, depth)
+    # _0 is assigned as a whole tuple (aggregate) or field by field
+    defs = cb.assigns_to(0)
+    if not defs:
+        return False
+    for (bb, d) in defs:
+        rv = getattr(d, "rv", None)
+        if rv is None:
+            return False
+        if d.lhs.proj:
+            fs = [e for e in d.lhs.proj if isinstance(e, dict) and "f" in e]
+            if len(fs) == 1 and str(fs[0]["f"]) == str(component):
+                if rv.k == "use" and count_like(cb, rv.ops[0], seen, depth + 1):
+                    continue
+                return False
+            continue
+        if rv.k == "aggr" and rv.j.get("ak") == "tuple" and component < len(rv.ops):
+            if count_like(cb, rv.ops[component], seen, depth + 1):
+                continue
+            return False
+        if rv.k == "use" and rv.ops[0].place is not None and not rv.ops[0].place.proj:
+            # `_0 = move _t` where _t is the tuple
+            from mir import Place
+
+            o2 = Operand({"k": "copy", "place": {"l": rv.ops[0].place.local, "p": [{"f": str(component), "i": component, "ty": "usize", "of": ""}], "ty": "usize"}})
+            if count_like(cb, o2, seen, depth + 1):
+                continue
+        return False
+    return True
+
+
 def rule3(ctx, prog, flows, all_sites, review, handled):
     ctx.rule("R-C20-3", "every arithmetic Assert is a constant-step counter, a sum of lengths, a division by a non-zero constant, a guarded unsigned subtraction, or reviewed")
     groups = {}
@@ -737,7 +859,11 @@ def rule3(ctx, prog, flows, all_sites, review, handled):
                 ty = x.place.ty if x.place is not None else (y.place.ty if y.place is not None else "")
                 dx, dy = norm(fl.describe(x, depth=8)), norm(fl.describe(y, depth=8))
                 detail = "%s(%s, %s): %s" % (op, fmt_desc(dx), fmt_desc(dy), ty)
-                kshape = "%s(%s, %s): %s" % (op, shape_str(dx), shape_str(dy), ty)
+                legacy = "arith|%s|%s" % (b.short, "%s(%s, %s): %s" % (op, shape_str(dx), shape_str(dy), ty))
+                if panic.LEGACY_KEYS:
+                    kshape = "%s(%s, %s): %s" % (op, shape_str(dx), shape_str(dy), ty)
+                else:
+                    kshape = "%s(%s, %s): %s" % (op, shape_str(norm(panic.expand_names(fl, dx))), shape_str(norm(panic.expand_names(fl, dy))), ty)
                 if op == "Add" and (x.is_const() or y.is_const()) and ty in ("usize", "u64", "i32", "i64", "u32"):
                     other = dy if x.is_const() else dx
                     c = (x if x.is_const() else y).const_int()
@@ -745,12 +871,16 @@ def rule3(ctx, prog, flows, all_sites, review, handled):
                         auto = "constant-step (+%d) %s counter: cannot reach %s::MAX before memory is exhausted" % (c, ty, ty)
                 elif op == "Add" and is_len_like(dx) and is_len_like(dy):
                     auto = "sum of two collection lengths"
+                elif op == "Add" and ty in ("usize", "u64") and count_like(b, x) and count_like(b, y):
+                    auto = "sum of counts of items that exist in memory (lengths, counters and their sums): cannot reach %s::MAX" % ty
                 elif op == "Sub" and ty in ("usize", "u64", "u32") and y.is_const():
                     c = y.const_int()
                     g = comparison_guard(fl, t.bb, dx, c) if c is not None else None
                     if g:
                         auto = "unsigned subtraction of %d %s" % (c, g)
-        key = "arith|%s|%s" % (b.short, kshape)
+        key = "arith|%s|%s" % (b.short if panic.LEGACY_KEYS else b.short.split("::{closure")[0], kshape)
+        if mk == "Overflow" and ao:
+            KEYMAP.append((legacy, key))
         groups.setdefault(key, []).append((b, s, auto, detail))
     for key, lst in sorted(groups.items()):
         b, s, auto, detail = lst[0]
